@@ -72,6 +72,7 @@ package io
 //@   choose own_cursor: freshobj(result0) ==> cell(result0) == ref(result0)
 //@   ensures kind [C07,C09]: err == nil ==> typeis(result0, "*v2/internal/io.offsetReadSeeker") && freshobj(result0)
 //@   ensures at_origin [C07]: err == nil ==> pos(result0) == sbase(result0)
+//@   ensures origin [C04,C07]: err == nil && !typeis(r, "*v2/internal/io.offsetReadSeeker") ==> sbase(result0) == off
 //@   ensures zero_offset_ok [C07,C08,C09]: off == 0 ==> err == nil
 //@   ensures fail_nil [C09]: err != nil ==> result0 == nil
 
